@@ -74,7 +74,7 @@ Proof.
     split; [congruence|].
     intros x' y' Hne. unfold vp_cell. destruct (vp_convert_coords vp x' y') as [ax' ay'] eqn:Ec.
     apply Hoth. intros E. injection E as E1 E2. subst ax' ay'. apply Hne.
-    apply (convert_coords_inj vp). rewrite Ec. symmetry. exact Hxy.
+    apply (convert_coords_inj vp). rewrite Ec. exact Hxy.
 Qed.
 
 (* a list of pixel requests: the cells of the listed pixels that lie inside the viewport get the attribute,
